@@ -78,6 +78,24 @@ func credAlphabet(r *rand.Rand) []ccachefmt.Credential {
 		c.Addresses = []ccachefmt.Address{{2, []byte{10, 0, 0, 1}}, {24, key(16)}, {2, []byte{}}}
 		c.AuthData = []ccachefmt.AuthData{{1, []byte("a")}, {128, key(300)}, {0xFFFF, []byte{}}}
 	})
+	// every pair of different address / authorization-data counts 0..3 (the two counted lists are independent)
+	for na := 0; na <= 3; na++ {
+		for nd := 0; nd <= 3; nd++ {
+			if na == nd {
+				continue
+			}
+			na, nd := na, nd
+			add(func(c *ccachefmt.Credential) {
+				c.Addresses, c.AuthData = []ccachefmt.Address{}, []ccachefmt.AuthData{}
+				for i := 0; i < na; i++ {
+					c.Addresses = append(c.Addresses, ccachefmt.Address{Type: uint16(2 + i), Data: key(4 + i)})
+				}
+				for i := 0; i < nd; i++ {
+					c.AuthData = append(c.AuthData, ccachefmt.AuthData{Type: uint16(1 + i), Data: key(3 + 5*i)})
+				}
+			})
+		}
+	}
 	add(func(c *ccachefmt.Credential) { c.Ticket = []byte{}; c.SecondTicket = []byte{0x61} })
 	add(func(c *ccachefmt.Credential) { c.SecondTicket = key(300) })
 	add(func(c *ccachefmt.Credential) {
@@ -305,7 +323,7 @@ func Run(c *engine.Ctx) {
 	c.Add("transitions", evals)
 	c.Add("traces_validated_against_impl", evals)
 	c.Cov["credential_alphabet"] = len(alpha)
-	c.Cov["rule"] = "version(1-4) x v4 header shapes(5) x default principals(4) x {0 credentials, each single credential of a 14-shape alphabet}; all ordered pairs of the alphabet under two headers/principals per version; sliding windows of 3-6 credentials and the whole alphabet; GetEntry/Contains/GetEntries for 7 queries per file; NewFromCCache + GetCachedTicket per version. distinct = (version, header, count, shape) files that parsed to exactly the model"
+	c.Cov["rule"] = "version(1-4) x v4 header shapes(5) x default principals(4) x {0 credentials, each single credential of a 26-shape alphabet incl. every pair of different address / authorization-data counts 0..3}; all ordered pairs of the alphabet under two headers/principals per version; sliding windows of 3-6 credentials and the whole alphabet; GetEntry/Contains/GetEntries for 7 queries per file; NewFromCCache + GetCachedTicket per version. distinct = (version, header, count, shape) files that parsed to exactly the model"
 }
 
 func hdrClass(m ccachefmt.CCache) string {
